@@ -40,6 +40,7 @@ type RunConfig struct {
 	Byz           int     `json:"byz"`
 	PCommitSubmit float64 `json:"p_commit_submit"`
 	Quorumless    bool    `json:"quorumless"`
+	Maintenance   bool    `json:"maintenance,omitempty"`
 	NilTx         bool    `json:"nil_tx"`
 	PAsync        float64 `json:"p_async"`
 	PReFF         float64 `json:"p_reff"`
